@@ -486,10 +486,10 @@ def c17_cases(rng, tier):
                           'kind': 'join', 'list': l, 'sep': sep})
     for l in lists[:40]:
         lit = '[' + ', '.join('"%s"' % x for x in l) + ']'
-        cases.append({'src': prog(['নাম তা = %s;' % lit, 'নাম তা২ = তা;', 'দেখাও _স্ট্রিং-জয়েন(তা, ",");', 'দেখাও তা;', 'দেখাও _স্ট্রিং-জয়েন(তা২, "-");', 'দেখাও _লিস্ট-লেন(তা);',
-                                   'দেখাও _স্ট্রিং-স্প্লিট(_স্ট্রিং-জয়েন(তা, "|"), "|");', 'দেখাও তা২;']), 'kind': 'join-reuse'})
+        cases.append({'src': prog(['নাম তা = %s;' % lit, 'নাম তা২ = তা;', 'দেখাও _স্ট্রিং-জয়েন(তা, ",");', 'দেখাও তা;', 'দেখাও _স্ট্রিং-জয়েন(তা২, "-");', 'দেখাও _লিস্ট-লেন(তা);',
+                                   'দেখাও _স্ট্রিং-স্প্লিট(_স্ট্রিং-জয়েন(তা, "|"), "|");', 'দেখাও তা২;']), 'kind': 'join-reuse'})
     for s_, sep in [('ক।', '।'), ('।', '।'), ('ক।।খ', '।।'), ('কখ', 'কখগ'), ('অ', 'অআ'), ('ক খ', ' '), ('এক—দুই', '—'), ('😀a😀', '😀')]:
-        cases.append({'src': prog(['নাম ভাগ = _স্ট্রিং-স্প্লিট("%s", "%s");' % (s_, sep), 'দেখাও ভাগ;', 'দেখাও _লিস্ট-লেন(ভাগ);', 'দেখাও _স্ট্রিং-জয়েন(ভাগ, "%s");' % sep]), 'kind': 'split', 's': s_, 'sep': sep})
+        cases.append({'src': prog(['নাম ভাগ = _স্ট্রিং-স্প্লিট("%s", "%s");' % (s_, sep), 'দেখাও ভাগ;', 'দেখাও _লিস্ট-লেন(ভাগ);', 'দেখাও _স্ট্রিং-জয়েন(ভাগ, "%s");' % sep]), 'kind': 'split', 's': s_, 'sep': sep})
     for e in ['১', '"a"', 'সত্য', '[১]', '@{}', 'শূ', 'ফ', '_টাইপ(১)']:
         cases.append({'src': prog(['নাম শূ;', 'ফাং ফ() {', '} ফেরত;', 'দেখাও _টাইপ(%s);' % e]), 'kind': 'type'})
     for bad in ['_টাইপ()', '_টাইপ(১, ২)', '_স্ট্রিং-স্প্লিট("a")', '_স্ট্রিং-স্প্লিট("a", ১)', '_স্ট্রিং-স্প্লিট(১, "a")', '_স্ট্রিং-জয়েন(["a"])', '_স্ট্রিং-জয়েন(["a", ১], ",")', '_স্ট্রিং-জয়েন("a", ",")', '_স্ট্রিং-জয়েন(["a"], ১)', '_স্ট্রিং-স্প্লিট("a", "b", "c")']:
@@ -831,7 +831,7 @@ def c19_cases(rng, tier):
         p2_fixed.append([l.replace('ব্যস্ত', 'দ্বিব্যস্ত').replace('প্রথম', 'দ্বিপ্রথম').replace('বানাও', 'দ্বিবানাও') for l in c['src'].rstrip('\n').split('\n')])
     for a in p1_pool:
         for b in p2_fixed:
-            cases.append({'p1': prog(a), 'p2': prog(b), 'kind': 'compose', 'budget': 200000})
+            cases.append({'p1': prog(a), 'p2': prog(b), 'kind': 'compose', 'budget': 40000})
     for _ in range(n):
         p1 = []
         for _ in range(rng.randint(1, 3)): p1 += rng.choice(p1_pool)
